@@ -85,6 +85,31 @@ def make_cases(rng, tier, budget):
         c["history"] = lead + [["build", vm2(v_old), root], ["build", vm2(v_new), root], ["build", vm2(v_new), root]]
         c["tag"] = {"f": f, "old": v_old, "new": v_new}
         out.append(c)
+    # version flips that only JSON equality tells apart (bool vs number, 1 vs 1.0, nested), for a function nested in
+    # another cacheable operation: every combination of the two call kinds
+    tricky = [(True, 1), (1, True), (False, 0), (0, False), (True, 1.0), ({"s": True}, {"s": 1}), ([True], [1]), (1, 1.0),
+              ({"a": 1, "b": 2}, {"b": 2, "a": 1}), (None, "ABSENT"), ("1", 1)]
+    for v_old, v_new in tricky:
+        for outer in ("subbuild", "build_file"):
+            for inner in ("subbuild", "build_file"):
+                funcs = {}
+                if inner == "subbuild":
+                    funcs["inner"] = {"*": [["ask", "q", "exists", ["src"]], ["ret", ["digest", ["q"]]]]}
+                    call_inner = [["subbuild", "i", "inner", [1], {}]]
+                else:
+                    funcs["inner"] = {"*": [["write", ["lit", "in"]], ["ret", ["lit", 3]]]}
+                    call_inner = [["build_file", "i", ["vd", "in"], "METADATA", "inner", [], {}]]
+                if outer == "subbuild":
+                    funcs["outer"] = {"*": call_inner + [["ret", ["digest", ["i"]]]]}
+                    root = [["subbuild", "o", "outer", [], {}], ["ret", ["var", "o"]]]
+                else:
+                    funcs["outer"] = {"*": call_inner + [["write", ["digest", ["i"]]], ["ret", ["lit", 0]]]}
+                    root = [["build_file", "o", ["vd", "out"], "METADATA", "outer", [], {}], ["ret", ["var", "o"]]]
+                def vm3(v):
+                    return {} if v == "ABSENT" else {"inner": copy.deepcopy(v)}
+                out.append({"cache": ["cache"], "name": "n", "funcs": funcs,
+                            "history": [["build", vm3(v_old), root], ["build", vm3(v_new), root], ["build", vm3(v_new), root]],
+                            "tag": {"f": "inner", "old": v_old, "new": v_new}})
     return out
 
 
